@@ -10,7 +10,7 @@ for name in sorted(os.listdir(f"{wr}/refactors")):
     d = f"{wr}/refactors/{name}"
     if not os.path.exists(f"{d}/patch.diff"):
         continue
-    sh("git checkout -- src")
+    sh("git checkout -- src && git clean -fdq src")
     a = sh(f"git apply {d}/patch.diff")
     if a.returncode:
         print(name, "patch does not apply"); continue
@@ -25,4 +25,4 @@ for name in sorted(os.listdir(f"{wr}/refactors")):
             for l in c.stdout.splitlines():
                 if l.startswith(("VIOLATION", "UNDECIDED", "CHECKER")):
                     print("     ", l[:200])
-    sh("git checkout -- src")
+    sh("git checkout -- src && git clean -fdq src")
